@@ -35,7 +35,7 @@ import assemble            # noqa: E402
 import annotate            # noqa: E402
 from extract import Lost   # noqa: E402
 
-VERUS_FLAGS = ["--triggers-mode", "silent", "--rlimit", "200", "--output-json", "--time-expanded", "--multiple-errors", "4"]
+VERUS_FLAGS = ["--triggers-mode", "silent", "--rlimit", "50", "--output-json", "--time-expanded", "--multiple-errors", "4"]
 CLAIMED = ["C01", "C02", "C03", "C06", "C08", "C12", "C16"]
 
 
